@@ -1,5 +1,5 @@
 #!/usr/bin/env python3
-"""For one seeded change: applies it to a scratch copy of /repo and runs all 20 quick checks (no controls) against the copy.
+"""For one seeded change: applies it to a scratch copy of /repo and runs the rules of all 20 properties (wtcheck -all: one load, no controls) against the copy.
 Prints a JSON line {src, detected_by: {prop: [rules]}}."""
 import json, os, re, shutil, subprocess, sys, tempfile
 src = sys.argv[1]
@@ -11,12 +11,15 @@ try:
     rc = subprocess.run(['git', 'apply', os.path.join(src, 'patch.diff')], cwd=scratch, capture_output=True, text=True, env=dict(os.environ, GIT_CEILING_DIRECTORIES='/tmp'))
     out = {'src': src, 'applies': rc.returncode == 0, 'detected_by': {}}
     if rc.returncode == 0:
-        for i in range(1, 21):
-            p = 'C%02d' % i
-            r = subprocess.run(['/verif/bin/wtcheck', '-property', p, '-repo', scratch, '-no-controls', '-evidence-dir', ev], capture_output=True, text=True, cwd='/verif')
-            rules = sorted(set(re.findall(r'(?:VIOLATED|UNDECIDED) (\S+) \[', r.stdout)))
-            if r.returncode != 0:
-                out['detected_by'][p] = rules
+        r = subprocess.run([os.environ.get('WTCHECK', '/verif/bin/wtcheck'), '-all', '-repo', scratch], capture_output=True, text=True, cwd='/verif')
+        for l in r.stdout.splitlines():
+            m = re.match(r'^(C\d\d) FAIL \S+ (?:VIOLATED|UNDECIDED) (\S+) \[', l)
+            if m:
+                rs = out['detected_by'].setdefault(m.group(1), [])
+                if m.group(2) not in rs:
+                    rs.append(m.group(2))
+        for p in out['detected_by']:
+            out['detected_by'][p].sort()
     print(json.dumps(out))
 finally:
     shutil.rmtree(scratch, ignore_errors=True)
